@@ -275,6 +275,15 @@ func (it *Interp) soak(G, N int, R, seed uint64) string {
 	old := runtime.GOMAXPROCS(8)
 	defer runtime.GOMAXPROCS(old)
 	custom := it.chain("c/N/p/S")
+	// Recycle the current bucket of every node the soak will touch before going parallel: a writer racing with the
+	// recycling of a stale bucket can lose its update (BucketStart is published before the counters are zeroed) - that is
+	// C09's subject (concurrent writers and rollover), not C01's; adding 0 is invisible to every observation.
+	stat.InboundNode().AddCount(base.MetricEventPass, 0)
+	for j := uint64(0); j < R; j++ {
+		if n := stat.GetResourceNode("s" + strconv.FormatUint(j, 10)); n != nil {
+			n.AddCount(base.MetricEventPass, 0)
+		}
+	}
 	var wg sync.WaitGroup
 	bad := int32(0)
 	for g := 0; g < G; g++ {
